@@ -22,9 +22,8 @@ PID = "C04"
 CONTRACT_DIR = os.path.join(common.REPO, "examples", "jsons-solc")
 CONTRACT_QUICK = ["0x363c421901B7BDCa0f2a17dA03948D676bE350E4.json_solc"]
 CONTRACTS_THOROUGH = CONTRACT_QUICK + [
-    "0x0c9C2e9647f65118EffB3d87C6D025d95845E930.json_solc",
-    "0x140A44558A0f54a40608737c3C51559a7CE5C854.json_solc",
-    "0x15754A1c2C139359ae347407958337Bf7eBD93ab.json_solc",
+    "0x140A44558A0f54a40608737c3C51559a7CE5C854.json_solc",      # 450 blocks
+    "0x1f2cF791d940Bbb9fbe777271afa6ff9bBA8AbA0.json_solc",
 ]
 OPTION_SETS = [(), ("-storage",), ("-partition",),
                ("-no-simplification",), ("-storage", "-no-simplification"), ("-partition", "-no-simplification")]
@@ -182,7 +181,7 @@ def gen_block(rng, max_len=40, max_need=18):
         elif kind == "bin":
             if depth_ok(2):
                 op = rng.choice(BIN)
-                if op in ("EXP", "SHL", "SHR", "SAR") and rng.random() < 0.7:
+                if op in ("EXP", "SHL", "SHR", "SAR") and rng.random() < 0.9:
                     emit(_push(rng.choice([0, 1, 2, 8, 255, 256])), 0, 1)   # small shift/exponent first operand
                     if op == "EXP" and rng.random() < 0.5:
                         emit("SWAP1", 2, 2)
@@ -423,7 +422,7 @@ def coq_check_cases(prefix, cases, bounded=False, extra=None, timeout=900):
             body.append("Definition q%d : list step := %s." % (k, it))
             if bounded:
                 body.append("Eval vm_compute in (%d%%nat, check_bounded S%d q%d %d %d, wf_spec S%d, peak_of S%d q%d)." %
-                            (k, k, k, int(c["len"]), int(c["sk"]), k, k, k))
+                            (k, k, k, max(0, int(c["len"])), max(0, int(c["sk"])), k, k, k))
             else:
                 body.append("Eval vm_compute in (%d%%nat, check S%d q%d, wf_spec S%d, peak_of S%d q%d)." % (k, k, k, k, k, k))
             if extra is not None:
@@ -432,7 +431,7 @@ def coq_check_cases(prefix, cases, bounded=False, extra=None, timeout=900):
             idx.append(k)
         if idx:
             files.append(("%s_%d" % (prefix, f0 // per), "\n".join(body) + "\n"))
-    out = common.run_cases_parallel(files, timeout=timeout) if files else {}
+    out = run_case_files(files, timeout=timeout) if files else {}
     broken = []
     for name, (ok, txt) in sorted(out.items()):
         if not ok:
@@ -456,17 +455,41 @@ def coq_check_cases(prefix, cases, bounded=False, extra=None, timeout=900):
             res[k]["wf"] = mv.group(2) == "true"
             res[k]["peak"] = int(mv.group(3))
             res[k]["evaluated"] = True
-    for name, _ in files:
-        for ext in (".v", ".vo", ".vok", ".vos", ".glob"):
-            try:
-                os.remove(os.path.join(common.COQ, "Cases", name + ext))
-            except OSError:
-                pass
+    return res, broken
+
+
+CASES_DIR = "CasesC04"     # private: other checks wipe coq/Cases while they run
+
+
+def run_case_files(named_bodies, timeout=900):
+    """Like common.run_cases_parallel, but in a directory of our own (coq/CasesC04/<pid>_<n>) that
+    is removed afterwards.  Returns {name: (ok, output)}."""
+    import concurrent.futures as cf
+    import shutil
+    import uuid
+    sub = os.path.join(CASES_DIR, "r" + uuid.uuid4().hex[:8])
+    d = os.path.join(common.COQ, sub)
+    os.makedirs(d, exist_ok=True)
+    for n, b in named_bodies:
+        with open(os.path.join(d, n + ".v"), "w") as fh:
+            fh.write(b)
+
+    def one(n):
+        rc, out = common.sh("ulimit -s unlimited 2>/dev/null; timeout %d coqc -Q . GV %s/%s.v" % (timeout, sub, n),
+                            cwd=common.COQ, timeout=timeout + 30)
+        return n, (rc == 0, out)
+    res = {}
+    try:
+        with cf.ThreadPoolExecutor(max_workers=common.NCPU) as ex:
+            for n, r in ex.map(one, [n for n, _ in named_bodies]):
+                res[n] = r
+    finally:
+        shutil.rmtree(d, ignore_errors=True)
         try:
-            os.remove(os.path.join(common.COQ, "Cases", "." + name + ".aux"))
+            os.rmdir(os.path.join(common.COQ, CASES_DIR))
         except OSError:
             pass
-    return res, broken
+    return res
 
 
 def parse_evals(out):
@@ -558,7 +581,7 @@ def _greedy_on_specs(specs, timeout=20):
     return r
 
 
-def shrink(sfs, ids, verdict, rounds=30):
+def shrink(sfs, ids, verdict, rounds=15):
     """Greedy-driven shrinking; the Python mirror decides during the loop (the final input is
     re-checked by Coq by the caller)."""
     cur, cur_ids, cur_v = sfs, ids, verdict
@@ -588,7 +611,7 @@ def spec_key(sfs):
     return json.dumps(sfs, sort_keys=True)
 
 
-def collect_frontend(run, rng, nblocks, option_sets, contracts, timeout=8, pid=PID):
+def collect_frontend(run, rng, nblocks, option_sets, contracts, timeout=6, pid=PID, contract_option_sets=None):
     """Runs the front end + greedy.  Returns list of case dicts:
     {'origin', 'opts', 'block', 'name', 'sfs', 'greedy', 'sub_block_list', 'sub_index'} and stats."""
     blocks = []
@@ -607,7 +630,7 @@ def collect_frontend(run, rng, nblocks, option_sets, contracts, timeout=8, pid=P
     for cf in contracts:
         path = os.path.join(CONTRACT_DIR, cf)
         nb = len(contract_blocks(path))
-        for opts in option_sets:
+        for opts in (contract_option_sets or option_sets):
             items = [("block", i) for i in range(nb)]
             rs = gasol.pmap(_frontend, items, init=_init_frontend, initargs=(opts, path), timeout=timeout)
             _absorb(cases, stats, rs, items, opts, "contract:" + cf[:10])
@@ -730,12 +753,13 @@ def check(run):
     preload()
     ok = common.proof_stage(run, "Props/C04.v")
     thorough = run.tier == "thorough"
-    nblocks = 1500 if thorough else 220
-    nhand = 12000 if thorough else 1500
+    nblocks = 600 if thorough else 100
+    nhand = 6000 if thorough else 1000
     option_sets = OPTION_SETS + (EXTRA_OPTION_SETS if thorough else [])
     contracts = CONTRACTS_THOROUGH if thorough else CONTRACT_QUICK
     t0 = time.time()
-    fe, st1 = collect_frontend(run, rng, nblocks, option_sets, contracts)
+    fe, st1 = collect_frontend(run, rng, nblocks, option_sets, contracts,
+                               contract_option_sets=OPTION_SETS[:4] if thorough else [OPTION_SETS[0], OPTION_SETS[1], OPTION_SETS[3]])
     run.log("front end + greedy: %d specifications from %d block runs (%.0fs) %s" %
             (len(fe), st1["blocks"], time.time() - t0, st1["frontend_status"]))
     t0 = time.time()
@@ -766,6 +790,7 @@ def check(run):
         run.report({"kind": "cases-broken", "file": name}, "cases file %s did not evaluate: %s" % (name, txt[-300:]),
                    {"file": name, "output": txt}, found_input=False)
     accepted = rejected = 0
+    shrunk_kinds = {}
     nontrivial = 0
     wf_false = 0
     for c, r in zip(todo, res):
@@ -786,7 +811,8 @@ def check(run):
                 nontrivial += 1
             continue
         rejected += 1
-        report_rejection(run, c, v, tables)
+        shrunk_kinds[v[1]] = shrunk_kinds.get(v[1], 0) + 1
+        report_rejection(run, c, v, tables, do_shrink=shrunk_kinds[v[1]] <= 2)
     run.cov["evaluations"] = len(cases)
     run.cov["distinct_nontrivial"] = nontrivial
     run.cov["rule"] = ("specifications: front end on generated blocks (stack-height-aware generator, lengths 1-40, "
@@ -807,10 +833,12 @@ def check(run):
             (accepted, rejected, wf_false, dist["greedy_error"]))
 
 
-def report_rejection(run, c, v, tables):
+def report_rejection(run, c, v, tables, do_shrink=True):
     sfs, ids = c["sfs"], c["greedy"]["ids"]
     small, small_ids, small_v = sfs, ids, v
-    if v[1] != "EFormat":
+    if common.match_known(run.known, run.pid, classify(c, v, tables)) is not None:
+        do_shrink = False                  # a recorded finding: no need to minimise it again
+    if v[1] != "EFormat" and do_shrink:
         try:
             small, small_ids, small_v = shrink(sfs, ids, v)
         except Exception as e:  # noqa
@@ -838,6 +866,28 @@ def replay(run, path):
     with open(path) as fh:
         j = json.load(fh)
     rp = j.get("replay", j)
+    preload()
+    if "sfs" not in rp and (rp.get("block") or j.get("block")):
+        block = rp.get("block") or j.get("block")
+        rs = gasol.pmap(_frontend, [("text", block)], init=_init_frontend, initargs=(tuple(rp.get("opts", [])),),
+                        timeout=60)
+        status, val = rs[0]
+        if status != "ok":
+            print("front end:", status, val)
+            return 2
+        rc = 0
+        for sub in val["subs"]:
+            g = sub["greedy"]
+            print("sub-block", sub["name"], "greedy error", g["err"], "ids", g["ids"])
+            if g["err"] != 0:
+                continue
+            res, broken = coq_check_cases("c04r", [{"sfs": sub["sfs"], "ids": g["ids"]}])
+            v = res[0].get("verdict") if res[0] else "?"
+            print("  Coq verdict:", v, "--", sfs2coq.explain(v, g["ids"], res[0]["tables"]) if res[0] else "")
+            print("  dependencies:", sub["sfs"].get("dependencies"))
+            if v is not None:
+                rc = 1
+        return rc
     if "sfs" not in rp:
         print("replay names a broken proof obligation:", rp.get("theorem") or rp.get("file"))
         ok = common.proof_stage(run, "Props/C04.v")
